@@ -11,7 +11,7 @@ import os
 
 import numpy as np
 
-from rv import core, fcsgen, layouts
+from rv import core, fcsgen, layouts, zoo
 
 ANCHORS = ['read_fcs_data_segment', 'read_fcs_header_segment', 'FCSFile.__init__']      # functions the property is anchored in: never entered => inconclusive
 LEVEL = 'fault_enumeration'
@@ -238,6 +238,64 @@ def run(ctx):
                                      spec['datatype'], cell[4]),
                           nontrivial=N >= 2, distinct_key=core.digest(raw2),
                           sample={'fault': name, 'change': change, 'file': desc} if nfault == 3 and cid[1] % 5 == 0 else None)
+    # ---- a second data set appended to the file ($NEXTDATA) ----------------------------------------------------------
+    # Whatever the position of an open handle, and wherever the file is cut inside the SECOND data set, a load returns one
+    # data set's events together with that same data set's keywords (the first one for this reader), or raises: never the
+    # keywords of one paired with the events of the other.
+    for cid, rng in ctx.cases([('two', i) for i in range(6 if ctx.tier == 'quick' else 300)]):
+        D = int(rng.integers(2, 4))
+        spA = zoo.int_spec(rng, n=int(rng.integers(4, 10)), d=D, version='FCS3.0')
+        spB = zoo.int_spec(rng, n=len(spA['events']), d=D, version='FCS3.0')       # same shape: a mix-up is not caught by a size check
+        spB['offsets'] = 'text' if rng.random() < 0.6 else 'header'
+        spA['offsets'] = 'text' if rng.random() < 0.4 else 'header'
+        spB['extra'] = list(spB.get('extra', [])) + [('$SMNO', 'second data set')]
+        try:
+            spA['override'] = dict(spA.get('override') or {}, **{'$NEXTDATA': '0' * 8})
+            r0, _ = fcsgen.build(spA)
+            spA['override']['$NEXTDATA'] = str(len(r0)).rjust(8, '0')
+            rA, layA = fcsgen.build(spA)
+            rB, layB = fcsgen.build(spB)
+        except AssertionError:
+            continue
+        if len(rA) != len(r0):
+            continue
+        refs = []
+        for rr in (rA, rB):
+            with open(path, 'wb') as fh:
+                fh.write(rr)
+            oo = core.attempt(FlowCal.io.FCSFile, path)
+            refs.append(None if oo.raised else (np.array(oo.value.data), dict(oo.value.text)))
+        if refs[0] is None or refs[1] is None:
+            ctx.note('two data sets: single data set refused (harness)')
+            continue
+        cuts = [None] + [len(rA) + layB['data_begin'] + int(x) for x in rng.integers(0, max(1, layB['data_end'] - layB['data_begin']), size=4)]
+        for cut in cuts:
+            whole = rA + rB
+            with open(path, 'wb') as fh:
+                fh.write(whole if cut is None else whole[:cut])
+            loads = [('path', core.attempt(FlowCal.io.FCSFile, path))]
+            with open(path, 'rb') as fh:
+                first = core.attempt(FlowCal.io.FCSFile, fh)
+                loads.append(('handle', first))
+                fh.seek(len(rA))
+                loads.append(('handle at $NEXTDATA', core.attempt(FlowCal.io.FCSFile, fh)))
+                fh.seek(len(rA))
+                o3 = core.attempt(FlowCal.io.FCSData, fh)
+                loads.append(('handle at $NEXTDATA (FCSData)', o3))
+            for where, oo in loads:
+                ctx.counters['chk:two-datasets'] += 1
+                if oo.raised:
+                    continue
+                v = oo.value
+                arr = np.array(v.data) if hasattr(v, 'data') and not hasattr(v, 'channels') else np.array(np.asarray(v))
+                txt = dict(v.text)
+                def same(ref):
+                    return arr.shape == ref[0].shape and arr.tolist() == ref[0].tolist() and txt == ref[1]
+                ok = same(refs[0]) or (cut is None and same(refs[1]))
+                ctx.check(ok, 'second-data-set:keywords-and-events-of-different-data-sets', cid, where=where, cut=cut,
+                          events_of=('first' if arr.tolist() == refs[0][0].tolist() else 'second' if arr.tolist() == refs[1][0].tolist() else 'neither'),
+                          keywords_of=('first' if txt == refs[0][1] else 'second' if txt == refs[1][1] else 'neither'))
+        ctx.case_done(class_key=('two-datasets', spA['offsets'], spB['offsets']), nontrivial=True, distinct_key=core.digest(rA, rB))
     # ---- the empty file --------------------------------------------------------
     if ctx.shard == 0 or ctx.only_case is not None:
         open(path, 'wb').close()
